@@ -17,13 +17,14 @@ const (
 	kDER           // DER-aware edits at node i
 	kRelen         // a primitive element re-encoded at another content length (position = (element, length) pair)
 	kOID           // OBJECT IDENTIFIER elements: every value of the last two bytes, replacement by other known OIDs
+	kText          // text-grammar edits of every string value (text.go), enclosing lengths recomputed
 	kTiny          // empty and 1-3 byte inputs (position = index into the fixed list)
 	kCross         // every other artefact of the world, unmodified (type confusion)
 	kSplice        // seeded random splices
 	nKinds
 )
 
-var kindNames = [nKinds]string{"truncate", "xor01", "xor80", "set00", "setff", "der-edit", "der-relength", "der-oid", "tiny", "cross-type", "random-splice"}
+var kindNames = [nKinds]string{"truncate", "xor01", "xor80", "set00", "setff", "der-edit", "der-relength", "der-oid", "text-grammar", "tiny", "cross-type", "random-splice"}
 
 // tinyInputs is the fixed list of empty and 1-3 byte inputs.
 var tinyInputs = func() [][]byte {
@@ -69,6 +70,8 @@ func positions(kind int, a *artefact, w *world) int {
 			a.oidp = a.tree.oidPositions(w.oids, allSubstitutions)
 		}
 		return len(a.oidp)
+	case kText:
+		return a.textPositions()
 	case kTiny:
 		return len(tinyInputs) + 1 // + nil
 	case kCross:
@@ -141,6 +144,11 @@ func mutantsAt(kind int, a *artefact, w *world, i int, out []mutant) []mutant {
 			m = a.wrap(m)
 		}
 		return append(out, mutant{b: m, what: []string{"der-oid/last-byte", "der-oid/second-to-last-byte", "der-oid/replace"}[p.mode]})
+	case kText:
+		if m, what, ok := a.textMutant(i); ok {
+			return append(out, mutant{b: m, what: what})
+		}
+		return out
 	case kTiny:
 		if i == len(tinyInputs) {
 			return append(out, mutant{isNil: true, what: "tiny"})
